@@ -85,7 +85,9 @@ def step (c impl : String) : String :=
     -- the standalone outcomes reported by the harness, as a function of the normalised input
     let pairs : List (String × String × String) := (f.drop 3).filterMap (fun p =>
       match p.splitOn "=" with
-      | [cid, v] => (match v.splitOn "/" with | [b, s] => some (cid, b, s) | _ => none)
+      | [cid, v] => (match v.splitOn "/" with
+          | [b, s] => some (cid, b, if s.endsWith "~" then "~" else s)   -- "~": Check itself answered this input differently when re-asked
+          | _ => none)
       | _ => none)
     let standaloneByKey : List (String × String) :=
       (bc.items.zip pairs).map (fun (it, p) => (normInput it, p.2.2))
@@ -100,7 +102,7 @@ def step (c impl : String) : String :=
       if f.headD "" ≠ "OK" then modelDiff "OK …" else
       if pairs.length ≠ bc.items.length then modelDiff s!"{bc.items.length} outcomes" else
       -- standalone Check deterministic per input? (otherwise nothing can be concluded: C02's business)
-      let nondet := (bc.items.zip pairs).any (fun (it, p) => check (normInput it) ≠ p.2.2)
+      let nondet := (bc.items.zip pairs).any (fun (it, p) => p.2.2 = "~" || check (normInput it) ≠ p.2.2)
       if nondet then "SKIP standalone-check-nondeterministic" else
       -- (a) the property
       let bad := (bc.items.zip pairs).filter (fun (it, p) => p.1 ≠ it.cid || p.2.1 ≠ p.2.2)
